@@ -760,6 +760,11 @@ bufferevent_add_to_rate_limit_group(struct bufferevent *bev,
 {
 	int wsuspend, rsuspend;
 	struct bufferevent_private *bevp = BEV_UPCAST(bev);
+
+	/* documented: a NULL group removes 'bev' from its current group */
+	if (g == NULL)
+		return bufferevent_remove_from_rate_limit_group(bev);
+
 	BEV_LOCK(bev);
 
 	if (!bevp->rate_limiting) {
